@@ -469,4 +469,31 @@ theorem stream_order (fuel k : Nat) (hk : k < 6) (size : Nat) (ps : List (List O
       have := ih src' rest (fun q hq => hmax q (by simp [hq])) a4
       exact List.prefix_cons_inj d |>.mpr this
 
+
+/-- decoding a frame from a source straight into a sink: when it reports success the value is the announced
+    length, exactly the `n` payload octets behind the prefix reached the sink, in order, and the source is left at
+    the first octet behind the frame - however source and sink fragment, stall or interrupt the transfer -/
+theorem source_to_sink_spec (fuel k : Nat) (hk : k < 6) (src : Src) (snk : Snk) (n : Nat) (hn : n ≤ maxSpec k)
+    (rest : List Octet) (hs : src.stream = prefixSpec k n ++ rest) :
+    ∀ m src' snk', flenp_decode_source_to_sink fuel k src snk = (.ok m, src', snk') →
+      m = n ∧ snk'.got = snk.got ++ rest.take n ∧ (rest.take n).length = n ∧ src'.stream = rest.drop n := by
+  intro m src' snk' h
+  simp only [flenp_decode_source_to_sink] at h
+  rcases hd : decode_prefix fuel k src with ⟨r, s1⟩
+  rw [hd] at h
+  cases r with
+  | error e => simp at h
+  | ok len =>
+    simp only at h
+    obtain ⟨rfl, hs1⟩ := decode_prefix_spec fuel k hk src n hn rest hs len s1 hd
+    obtain ⟨c1, _, _⟩ := Ufw.Props.C17.sts_n_spec fuel s1 snk len len
+    rw [h] at c1
+    obtain ⟨rfl, d, hdl, ⟨a1, a2, _, _⟩, ⟨b1, _, _⟩⟩ := c1 m rfl
+    simp only [List.append_nil] at a1 a2
+    rw [hs1, hdl] at a1 a2
+    refine ⟨rfl, ?_, ?_, a2⟩
+    · rw [b1, a1]
+    · rw [← a1]; exact hdl
+
+
 end Ufw.Props.C13
